@@ -103,6 +103,10 @@ func (x *rtItem) methods() []*methodInfo {
 					}
 				}
 			}
+			if m.Config == nil && s.BasePath != "" {
+				// the default route of the Go server: POST <base>/<method name in snake case>
+				mi.template = strings.TrimSuffix(s.BasePath, "/") + "/" + camelToSnake(m.Name)
+			}
 			for _, f := range in.Fields {
 				if f.Ann.Query != nil {
 					mi.query = append(mi.query, f)
@@ -264,3 +268,20 @@ func canonJSONBytes(b []byte) any {
 }
 
 func protojsonUnmarshal(b []byte, m proto.Message) error { return protojson.Unmarshal(b, m) }
+
+// camelToSnake is the generator's own rule for default paths (an underscore before every capital but the first).
+func camelToSnake(s string) string {
+	var b []byte
+	for i := 0; i < len(s); i++ {
+		c := s[i]
+		if c >= 'A' && c <= 'Z' {
+			if i > 0 {
+				b = append(b, '_')
+			}
+			b = append(b, c+'a'-'A')
+		} else {
+			b = append(b, c)
+		}
+	}
+	return string(b)
+}
